@@ -124,6 +124,15 @@ def pin_counting(case):
                 p.link("build", m4, ("gpg", m4 + "!"), M, P)
                 p.link("build", s1, ("gpg", s1 + "!"), M, P)
             tags, expect = ["gpg_subkeys_alone:40e6:" + case, "several_files_per_functionary:2"], "ThresholdVerificationError"
+        elif case == "authorised_key_not_in_store":
+            # step b authorises a key id the layout's key store does not hold; an earlier step's functionary signs a link
+            # for b and files it under that key id: nobody authorised for b attests anything
+            p.store({k0.keyid: k0.pub})
+            p.step("a", [k0.keyid])
+            p.step("b", [k1.keyid])
+            p.link("a", k0.keyid, k0, M, P)
+            p.link("b", k1.keyid, k0, P, p.art("pkg.tar"))
+            tags, expect = ["authorised_key_not_in_store"], "ThresholdVerificationError"
         elif case == "same_key_filed_twice":
             # ONE key filed under two entries of the layout's key store (its own id and an alias), both authorised,
             # threshold 2, one agreeing link under each name, both signed by that key: still ONE functionary
@@ -203,7 +212,7 @@ PINNED = (
        ("D8:metablock", pin_d8(False)), ("D8:dsse", pin_d8(True))]
     + [("count:" + c, pin_counting(c)) for c in
        ("subkeys_count_once", "subkeys_count_once_enough", "two_subkeys_authorised_alone", "master_and_subkey_authorised",
-        "master_and_subkey_files", "same_key_filed_twice", "expired_skipped",
+        "master_and_subkey_files", "same_key_filed_twice", "authorised_key_not_in_store", "expired_skipped",
         "expired_not_counted", "expired_master_live_subkey", "subkey_file_loaded", "invalid_not_counted", "invalid_next_to_enough_valid",
         "gpg_sigdict:gpg_oh_nibble", "gpg_sigdict:gpg_sig_upper", "gpg_sigdict:gpg_oh_nonhex", "gpg_sigdict:gpg_oh_odd",
         "gpg_sigdict:gpg_short_keyid_nonhex")]
